@@ -92,7 +92,8 @@ REQUIRED = {"registry": 2, "assign_scalar": 300, "assign_seq": 1200, "wronglen":
             "entry_states": 1500, "entry:already-parented-to-this-group": 50, "entry:already-a-member": 100,
             "entry:member-of-another-group": 50, "entry:parented-to-another-group": 50, "entry:parented-to-world": 50,
             "entry:parented-to-a-node": 50, "entry:no-parent": 300, "dup_assign": 100,
-            "rejected_ops": 500, "rejected_other_groups": 200}
+            "rejected_ops": 500, "rejected_other_groups": 200,
+            "assign_current_values": 1500, "observe_nonmembers": 300, "observe_diverged": 60}
 
 CLASSES = ["SightLineGroup", "FibreOpticGroup", "PixelGroup", "TargettedPixelGroup",
            "SpectroscopicSightLineGroup", "SpectroscopicFibreOpticGroup", "BolometerCamera"]
@@ -154,6 +155,24 @@ EXPECTED = {
     "SpectroscopicFibreOpticGroup": _BASE + _SPEC + ["acceptance_angle", "radius"],
     CAMERA: [],
 }
+# cross-attribute coincidences: COMPAT[a] = member attributes whose CURRENT value is always a valid value for a
+# (the attribute itself first: "assign what it already holds")
+COMPAT = {
+    "x_width": ["x_width", "y_width"], "y_width": ["y_width", "x_width"],
+    "radius": ["radius", "acceptance_angle"], "acceptance_angle": ["acceptance_angle", "radius"],
+    "ray_extinction_prob": ["ray_extinction_prob", "ray_important_path_weight", "targetted_path_prob"],
+    "ray_important_path_weight": ["ray_important_path_weight", "ray_extinction_prob", "targetted_path_prob"],
+    "targetted_path_prob": ["targetted_path_prob", "ray_extinction_prob", "ray_important_path_weight"],
+    "pixel_samples": ["pixel_samples", "samples_per_task", "spectral_bins"],
+    "samples_per_task": ["samples_per_task", "pixel_samples", "spectral_bins"],
+    "ray_max_depth": ["ray_max_depth", "ray_extinction_min_depth", "pixel_samples"],
+    "ray_extinction_min_depth": ["ray_extinction_min_depth", "ray_max_depth", "spectral_rays"],
+    "spectral_bins": ["spectral_bins"], "spectral_rays": ["spectral_rays"],
+    "max_wavelength": ["max_wavelength"], "min_wavelength": ["min_wavelength"],
+    "sensitivity": ["sensitivity", "max_wavelength", "min_wavelength"],
+    "quiet": ["quiet", "ray_importance_sampling"], "ray_importance_sampling": ["ray_importance_sampling", "quiet"],
+}
+_FALLBACK = {"int": lambda a: ATTRS[a]["lo"], "float": lambda a: 0.5 * (ATTRS[a]["lo"] + ATTRS[a]["hi"]), "bool": lambda a: True}
 PIPE_KINDS = ["power", "radiance", "spectral_power", "spectral_radiance"]
 FOREIGN_TYPES = ["SightLine", "FibreOptic", "Pixel", "TargettedPixel", "SpectroscopicSightLine",
                  "SpectroscopicFibreOptic", "BolometerFoil", "Sphere", "Node", "None", "str", "int"]
@@ -315,6 +334,31 @@ def _gen_assign(rng, attr, n, kind=None):
     return {"op": "assign", "attr": attr, "kind": kind, "value": vals}
 
 
+def _compat_sources(cname, attr):
+    have = set(_broadcast_attrs(cname))
+    return [a for a in COMPAT.get(attr, []) if a in have]
+
+
+def _gen_assign_cur(rng, cname, attr, n, kind=None, src=None, mode=None):
+    """Assignment whose elements are (partly) the CURRENT values of the same / another attribute of the same member."""
+    srcs = _compat_sources(cname, attr)
+    src = src or srcs[int(rng.integers(len(srcs)))]
+    kinds = _kinds(attr)
+    kind = kind or kinds[int(rng.integers(len(kinds)))]
+    if kind == "scalar":
+        return {"op": "assign", "attr": attr, "kind": "scalar", "value": {"cur": src, "of": int(rng.integers(0, max(n, 1)))}, "cur": True}
+    mode = mode or ["all", "alternate", "random", "shifted"][int(rng.integers(4))]
+    vals = []
+    for j in range(n):
+        if mode == "all" or (mode == "alternate" and j % 2 == 0) or (mode == "random" and rng.random() < 0.5):
+            vals.append({"cur": src})
+        elif mode == "shifted":
+            vals.append({"cur": src, "of": j + 1})
+        else:
+            vals.append(_gen_value1(rng, attr))
+    return {"op": "assign", "attr": attr, "kind": kind, "value": vals, "cur": True}
+
+
 def _wrong_lengths(n):
     return sorted({L for L in (n - 1, n + 1, 0, 1, 2 * n, n + 3) if L >= 0 and L != n})
 
@@ -433,7 +477,10 @@ def _gen_history(rng, cname, tier):
         elif r < 0.55 and attrs:
             a = attrs[int(rng.integers(len(attrs)))]
             if a in ATTRS:
-                ops.append(_gen_assign(rng, a, n))
+                if rng.random() < 0.3 and _compat_sources(cname, a):
+                    ops.append(_gen_assign_cur(rng, cname, a, n))
+                else:
+                    ops.append(_gen_assign(rng, a, n))
             else:
                 ops.append({"op": "generic", "attr": a})
         elif r < 0.67 and attrs:
@@ -446,8 +493,10 @@ def _gen_history(rng, cname, tier):
             ops.append({"op": "rename_member", "i": int(rng.integers(n)), "name": _gen_value1(rng, "names")})
         elif r < 0.80 and attrs:
             ops.append({"op": "read", "attr": attrs[int(rng.integers(len(attrs)))]})
-        elif r < 0.96:
+        elif r < 0.93:
             ops.append({"op": "lookup", "slices": _gen_slices(rng, n, 3)})
+        elif r < 0.96 and in_world:
+            ops.append(_gen_observe_op(rng))
         elif cname != CAMERA and cname not in SPECTRO:
             k = int(rng.integers(1, 3))
             ops.append({"op": "connect_pipelines", "kinds": [PIPE_KINDS[int(rng.integers(4))] for _ in range(k)]})
@@ -463,6 +512,12 @@ def _gen_history(rng, cname, tier):
     return {"kind": "history", "cls": cname, "in_world": in_world, "pool": pool, "init": _gen_init(rng, cname, n0), "ops": ops}
 
 
+def _gen_observe_op(rng):
+    return {"op": "observe", "reps": int(rng.integers(1, 3)), "ps": int(rng.integers(1, 12)), "spt": int(rng.integers(1, 12)),
+            "bins": int(rng.integers(1, 4)), "strays": int(rng.integers(0, 3)) if rng.random() < 0.5 else 0,
+            "reparent": [int(i) for i in rng.integers(0, 8, size=int(rng.integers(0, 3)))] if rng.random() < 0.4 else []}
+
+
 def _gen_observe(rng, cname):
     n = int(rng.integers(0, 6))
     pool = [_gen_member(rng, cname, i) for i in range(n)]
@@ -471,8 +526,13 @@ def _gen_observe(rng, cname):
         attrs = [a for a in _broadcast_attrs(cname) if a in ATTRS]
         for _ in range(int(rng.integers(1, 4))):
             ops.append(_gen_assign(rng, attrs[int(rng.integers(len(attrs)))], n))
-    ops.append({"op": "observe", "reps": int(rng.integers(1, 3)), "ps": int(rng.integers(1, 12)),
-                "spt": int(rng.integers(1, 12)), "bins": int(rng.integers(1, 4))})
+    paths = _member_paths(cname)
+    if rng.random() < 0.6:                # membership replaced / extended before observing: old members stay children
+        pool += [_gen_member(rng, cname, len(pool) + i) for i in range(int(rng.integers(0, 3)))]
+        k = int(rng.integers(0, len(pool) + 1))
+        ops.append({"op": "set_members", "ms": [int(i) for i in rng.permutation(len(pool))[:k]],
+                    "via": paths["set"][int(rng.integers(len(paths["set"])))], "kind": "list"})
+    ops.append(_gen_observe_op(rng))
     ops.append({"op": "lookup", "slices": []})
     return {"kind": "observe", "cls": cname, "in_world": True, "pool": pool, "init": _gen_init(rng, cname, n), "ops": ops}
 
@@ -535,6 +595,13 @@ def fixed_cases(tier):
                                 ops.append({"op": "assign", "attr": attr, "kind": kind, "value": [(lo, hi)[i % 2] for i in range(n)]})
                                 ops.append({"op": "assign", "attr": attr, "kind": kind, "value": [(hi, lo)[i % 2] for i in range(n)]})
                     ops.append(_gen_assign(rng, attr, n, "list"))
+                    if n in (1, 3):
+                        for src in _compat_sources(cname, attr):           # cross-attribute / same-attribute coincidences
+                            for kind in _kinds(attr):
+                                for mode in (("all",) if kind == "scalar" else ("all", "alternate") + (("shifted",) if src == attr else ())):
+                                    if src != attr:
+                                        ops.append(_gen_assign(rng, src, n, "list"))   # fresh, distinct source values
+                                    ops.append(_gen_assign_cur(rng, cname, attr, n, kind, src, mode))
                 else:
                     ops.append({"op": "generic", "attr": attr})
                 ops.append({"op": "read_all"})
@@ -640,6 +707,30 @@ def fixed_cases(tier):
                 cases.append({"kind": "observe", "cls": cname, "in_world": True, "pool": pool,
                               "init": {"via": "add", "n0": n},
                               "ops": [{"op": "observe", "reps": reps, "ps": 3 + n, "spt": 2, "bins": 2}]})
+    # observe after membership and scene-graph children have diverged
+    for cname in CLASSES:
+        paths = _member_paths(cname)
+        rng = np.random.default_rng([15, 57, zlib.crc32(cname.encode())])
+        pool = [_gen_member(rng, cname, i) for i in range(6)]
+        for i, p in enumerate(pool):
+            p["name"] = "ob%d" % i
+            if p.get("mtype") == "BolometerIRVB":
+                p["mtype"] = "BolometerFoil"
+        obs = {"op": "observe", "reps": 1, "ps": 3, "spt": 2, "bins": 1}
+        for via0 in (["add", "set_list"] if cname == CAMERA else ["ctor_list", "add", "set_list"]):
+            for setvia in paths["set"]:
+                ops = [dict(obs),
+                       {"op": "set_members", "ms": [4, 1, 3], "via": setvia, "kind": "list"},      # 0, 2 stay children
+                       dict(obs),
+                       dict(obs, strays=2),
+                       dict(obs, reparent=[0, 2]),
+                       {"op": "add", "m": 5, "via": paths["add"][-1]},
+                       dict(obs, reps=2, strays=1, reparent=[1]),
+                       {"op": "set_members", "ms": [], "via": setvia, "kind": "list"},
+                       dict(obs),
+                       {"op": "lookup", "slices": []}]
+                cases.append({"kind": "observe", "cls": cname, "in_world": True, "pool": pool,
+                              "init": {"via": via0, "n0": 3}, "ops": ops})
     # BolometerCamera holding an IRVB detector between two foils
     rng = np.random.default_rng([15, 56])
     pool = [_gen_member(rng, CAMERA, i) for i in range(3)]
@@ -672,6 +763,7 @@ class Env:
         self.slits = {}
         self.geom_margin = 0.0
         self.prepped = set()
+        self.all_observers = []            # every valid observer this case created (members or not)
         self.caller_lists = []             # (entry, list object) recently handed to container entry points
 
     # -- object pools -------------------------------------------------------------------------
@@ -731,6 +823,7 @@ class Env:
                 setattr(m, ATTRS[a]["member"], init[a])
         self.pool[idx] = m
         self.keep.append(m)
+        self.all_observers.append(m)
         return m
 
     # -- values -------------------------------------------------------------------------------
@@ -750,12 +843,22 @@ class Env:
             return self.S["Vector3D"](*v)
         raise ValueError(ty)
 
+    def resolve(self, attr, v, j):
+        """An element {"cur": src[, "of": k]} stands for the CURRENT value of member attribute src of the member at the
+        same position (or at position k) at the moment of the assignment."""
+        if isinstance(v, dict) and "cur" in v:
+            k = v.get("of", j)
+            if not self.members:
+                return _FALLBACK[ATTRS[attr]["type"]](attr)
+            return getattr(self.members[k % len(self.members)], ATTRS[v["cur"]]["member"])
+        return self.dec1(attr, v)
+
     def decode(self, attr, kind, value):
         """-> (python value to assign, list of per-element decoded values or None for scalar)"""
         if kind == "scalar":
-            d = self.dec1(attr, value)
+            d = self.resolve(attr, value, 0)
             return d, None
-        elems = [self.dec1(attr, v) for v in value]
+        elems = [self.resolve(attr, v, j) for j, v in enumerate(value)]
         if kind == "list":
             return list(elems), elems
         if kind == "tuple":
@@ -1029,6 +1132,8 @@ def op_assign(env, ctx, op):
     tag = "%s:%s.%s" % (kindkey, cn, attr) + ("" if kind == "scalar" else ":" + kind)
     before = snap_all(env, ctx)
     ctx.mon("assign_scalar" if kind == "scalar" else "assign_seq")
+    if op.get("cur"):
+        ctx.mon("assign_current_values")
     try:
         setattr(env.group, attr, value)
     except Exception as e:  # noqa  - every generated value is valid for every member: no exception is acceptable
@@ -1331,46 +1436,66 @@ def _make_member_like(env, m):
 
 
 def op_observe(env, ctx, op):
+    """group.observe() with a per-observer observation counter on EVERY observer the case created: exactly the members
+    must be observed, each exactly once per call, and nothing else - also when membership and scene-graph children have
+    diverged (members replaced through the setter: the old ones stay children; extra observers parented to the group
+    without being added; members temporarily re-parented elsewhere in the same world)."""
     S = env.S
     cn = env.cname
     g = env.group
-    mem = env.members
-    counters = []
-    has_irvb = False
+    for _ in range(op.get("strays", 0)):            # children of the group that were never added
+        fresh_member(env).parent = g
     uniq = []
-    for m in mem:
+    for m in env.members:
         if not any(x is m for x in uniq):
             uniq.append(m)
-    mult = [sum(1 for x in mem if x is u) for u in uniq]
-    mem = uniq
-    for m in mem:
+    mult = [sum(1 for x in env.members if x is u) for u in uniq]
+    outsiders = [o for o in env.all_observers if not any(o is u for u in uniq)]
+    counters = {}
+    has_irvb = False
+    for m in uniq + outsiders:
         m.render_engine = S["SerialEngine"]()
         m.quiet = True
         m.spectral_rays = 1
-        m.spectral_bins = op["bins"]
+        m.spectral_bins = 8 + op["bins"]     # stays inside the value domain of the table (spectral_rays <= 8 <= spectral_bins)
         m.ray_max_depth = 10                 # Raysect's Ray (not the observer) rejects min depth < 1 / max depth < min depth
         m.ray_extinction_min_depth = 2
         m.pixel_samples = op["ps"]
         if isinstance(m, S["BolometerIRVB"]):
-            has_irvb = True
+            has_irvb = has_irvb or any(m is u for u in uniq)
             c = S["CountingPower2D"](accumulate=True, display_progress=False)
         else:
             m.samples_per_task = op["spt"]
             c = S["CountingPower0D"](accumulate=True)
         m.pipelines = [c]
-        counters.append(c)
+        counters[id(m)] = c
+    moved = []
+    for i in op.get("reparent", []):                # members re-parented behind the group's back, for the observation only
+        if uniq:
+            m = uniq[i % len(uniq)]
+            if not any(m is x for x, _ in moved):
+                moved.append((m, m.parent))
+                m.parent = env.world
     reps = op["reps"]
     tag = "observe:%s%s" % (cn, ":irvb-member" if has_irvb else "")
-    for _ in range(reps):
-        try:
-            g.observe()
-        except Exception as e:  # noqa
-            ctx.viol(tag + ":raises-%s" % type(e).__name__,
-                     "group.observe() raised %s: %s; members observed so far: %s" % (
-                         type(e).__name__, str(e)[:200], [c.n_init for c in counters]))
-            drain_hook(env, ctx)
-            return
-    for j, (m, c) in enumerate(zip(mem, counters)):
+    try:
+        for _ in range(reps):
+            try:
+                g.observe()
+            except Exception as e:  # noqa
+                ctx.viol(tag + ":raises-%s" % type(e).__name__,
+                         "group.observe() raised %s: %s; members observed so far: %s" % (
+                             type(e).__name__, str(e)[:200], [counters[id(u)].n_init for u in uniq]))
+                return
+    finally:
+        for m, par in moved:
+            m.parent = par
+        drain_hook(env, ctx)
+    diverged = bool(moved) or any(c is not None and not any(c is u for u in uniq) and isinstance(c, S["member_types"][cn]) for c in g.children)
+    if diverged:
+        ctx.mon("observe_diverged")
+    for j, m in enumerate(uniq):
+        c = counters[id(m)]
         if mult[j] != 1:
             ctx.skip("member listed %d times: the unchanged code observes it once per entry; property silent" % mult[j])
             continue
@@ -1380,11 +1505,19 @@ def op_observe(env, ctx, op):
             ok = c.value.samples == reps * op["ps"]
         if not ok:
             ctx.viol(tag + ":member-not-observed-once",
-                     "after %d group.observe() call(s) member %d of %d was initialised %d and finalised %d times" % (
-                         reps, j, len(mem), c.n_init, c.n_final),
+                     "after %d group.observe() call(s) member %d of %d was initialised %d and finalised %d times%s" % (
+                         reps, j, len(uniq), c.n_init, c.n_final, " (member temporarily re-parented to the world)" if any(m is x for x, _ in moved) else ""),
                      samples=None if isinstance(m, S["BolometerIRVB"]) else int(c.value.samples), expected_samples=reps * op["ps"])
             break
-    if mem:
+    for o in outsiders:
+        ctx.mon("observe_nonmembers")
+        c = counters[id(o)]
+        if c.n_init or c.n_final:
+            ctx.viol("observe:%s:non-member-observed" % cn,
+                     "group.observe() observed an observer that is not a member (%s; initialised %d times)" % (
+                         "a child of the group node" if o.parent is g else "not even a child of the group", c.n_init))
+            break
+    if uniq:
         ctx.nontrivial()
     check_invariant(env, ctx, "observe")
 
@@ -1491,6 +1624,7 @@ def fresh_member(env):
         else:
             m = S[mt](pipelines=[env.pipeline("power")], name=nm)
     env.keep.append(m)
+    env.all_observers.append(m)
     return m
 
 
